@@ -145,6 +145,8 @@ pub struct Setup {
     pub system_idx: usize,
     pub service_url: String,
     pub cup: bool,
+    /// the embedder supplies a CUP handler but leaves Config::omaha_public_keys empty
+    pub cfg_keys_absent: bool,
     pub mode_start: bool,
     pub client_reqs: Vec<Vec<ClientReq>>,
     pub os_version: String,
@@ -248,6 +250,10 @@ fn draw_setup(w: &mut World) -> Setup {
         1000 => true,
         x => w.draws.chance("setup/cup", x),
     };
+    let cfg_keys_absent = cup && w.draws.chance("setup/cfg_keys_absent", 200);
+    if cfg_keys_absent {
+        w.stat("config.handler_without_config_keys");
+    }
     // key configuration
     let nk = refserver::N_KEYS;
     let latest_key = w.draws.draw("setup/key.latest", (nk - 1) as u64) as usize;
@@ -389,7 +395,7 @@ fn draw_setup(w: &mut World) -> Setup {
             w.triggers.push(Trigger { class: "__admin", ordinal: at, client: k as u32, req: 0, delay: 0 });
         }
     }
-    Setup { versions, apps, system_idx, service_url, cup, mode_start, client_reqs, os_version: "1.0.0.0".to_string() }
+    Setup { versions, apps, system_idx, service_url, cup, cfg_keys_absent, mode_start, client_reqs, os_version: "1.0.0.0".to_string() }
 }
 
 fn hostile_disk(w: &mut World, apps: &[App]) {
@@ -491,7 +497,7 @@ fn make_config(setup: &Setup, w: &World, os_version: &str) -> (Config, Option<St
             arch: "simarch".to_string(),
         },
         service_url: setup.service_url.clone(),
-        omaha_public_keys: if setup.cup { Some(pk) } else { None },
+        omaha_public_keys: if setup.cup && !setup.cfg_keys_absent { Some(pk) } else { None },
     };
     (config, handler)
 }
@@ -875,6 +881,14 @@ fn run_life(world: &Shared, setup: &Setup, steps: &mut u64) -> LifeEnd {
                     w.stat("proc.neighbour_holds_lock");
                     w.draws.draw(&format!("L{life}/neighbour#{k}/which"), 2)
                 };
+                // ... and, holding the app-set lock, may change an app's data (the embedder
+                // switches the channel hint of its first app)
+                let mutate = which == 1 && {
+                    let mut w = lock(world);
+                    let life = w.life;
+                    let rate = w.profile.neighbour_mutates_permille;
+                    w.draws.chance(&format!("L{life}/neighbour#{k}/mutate"), rate)
+                };
                 let (d, a, wd) = (disk_rc.clone(), apps_rc.clone(), world.clone());
                 let fut: LocalBoxFuture<'static, ()> = async move {
                     if which == 0 {
@@ -885,10 +899,19 @@ fn run_life(world: &Shared, setup: &Setup, steps: &mut u64) -> LifeEnd {
                         };
                         Pend::new(&wd, id, ()).await;
                     } else {
-                        let _g = a.lock().await;
+                        let mut _g = a.lock().await;
                         let id = {
                             let _e = EnvGuard::enter();
-                            lock(&wd).new_op("neighbour.hold", None).0
+                            let mut w = lock(&wd);
+                            if mutate {
+                                let hint = format!("embedder-hint-{k}");
+                                if let Some(app) = _g.apps.first_mut() {
+                                    app.cohort.hint = Some(hint.clone());
+                                    w.stat("embedder.app_set_changed_by_neighbour");
+                                    w.rec(Kind::NeighbourMutate { app: app.id.clone(), hint });
+                                }
+                            }
+                            w.new_op("neighbour.hold", None).0
                         };
                         Pend::new(&wd, id, ()).await;
                     }
